@@ -1003,13 +1003,18 @@ where
 pub struct ExpandIncludeFile<'a> {
     cwd: &'a Path,
     stack: Vec<OsString>,
+    expansions_left: usize,
 }
+
+/// gcc gives up with "too many @-files encountered" after this many expansions.
+const MAX_INCLUDE_FILE_EXPANSIONS: usize = 2000;
 
 impl<'a> ExpandIncludeFile<'a> {
     pub fn new(cwd: &'a Path, args: &[OsString]) -> Self {
         ExpandIncludeFile {
             stack: args.iter().rev().map(|a| a.to_owned()).collect(),
             cwd,
+            expansions_left: MAX_INCLUDE_FILE_EXPANSIONS,
         }
     }
 }
@@ -1024,6 +1029,14 @@ impl Iterator for ExpandIncludeFile<'_> {
                 Some(arg) => self.cwd.join(arg),
                 None => return Some(arg),
             };
+            // A file that (directly or not) includes itself would keep this loop
+            // running forever: past the limit the argument is returned literally,
+            // which makes the command line uncacheable and leaves the diagnostic
+            // to the compiler.
+            if self.expansions_left == 0 {
+                return Some(arg);
+            }
+            self.expansions_left -= 1;
 
             // According to gcc [1], @file means:
             //
